@@ -212,13 +212,12 @@ Section Jsonl.
 
   Theorem read_glob_concat : forall st p (f : list N -> list R),
     st <> [] ->
-    Forall (fun k => no_nl k = true) (map fst st) ->
     (forall k, In k (map fst st) -> glob_match p k = true -> cloud_read de dec st k = Ok (f k)) ->
     read_glob de dec st p = Ok (flat_map f (expand_ref (map fst st) p)).
   Proof.
-    intros st p f Hne Hnl Hread. unfold read_glob, bucket_of.
+    intros st p f Hne Hread. unfold read_glob, bucket_of.
     destruct st as [|o st']; [contradiction|].
-    rewrite expand_is_ref by exact Hnl.
+    rewrite expand_is_ref.
     apply read_all_concat. intros k Hk.
     apply (proj1 (proj2 (expand_ref_spec _ _))) in Hk. destruct Hk as [Hin Hm].
     apply Hread; assumption.
